@@ -244,6 +244,36 @@ func CheckProgram(p *Program, lenientPrc bool) (Verdict, *TC) {
 			return reject("linearity", "assumed name %s is never used", n), tc
 		}
 	}
+	// a configuration is a forest: no cycle in the 'uses' relation between the top-level processes
+	{
+		owner := map[string]int{}
+		for i, pi := range procs {
+			for _, n := range pi.names {
+				owner[n] = i
+			}
+		}
+		state := make([]int, len(procs))
+		var visit func(i int) bool
+		visit = func(i int) bool {
+			state[i] = 1
+			for n := range pjs[i].g {
+				j, ok := owner[n]
+				if !ok {
+					continue
+				}
+				if state[j] == 1 || (state[j] == 0 && visit(j)) {
+					return true
+				}
+			}
+			state[i] = 2
+			return false
+		}
+		for i := range procs {
+			if state[i] == 0 && visit(i) {
+				return reject("cyclic-configuration", "top-level processes depend on each other cyclically"), tc
+			}
+		}
+	}
 	// function bodies
 	for _, f := range p.Funcs {
 		s := tc.Sigs[f.Name]
